@@ -87,19 +87,17 @@ Fixpoint tftp_thread (has : bool) (dgs : list bytes) : list mop :=
 Definition no_rep (c : case) : bool := forallb (fun k => (k_rep k =? 0)%N) (c_conns c).
 
 (* allowed observation classes, or None where the service core is not modelled *)
-Definition ldap_nest_case (c : case) : option res :=
-  match c_conns c with
-  | [k] => match ldap_nest (stream_of k) (Z.of_N (k_rep k)) with
-           | Some (RFatal s) => Some (RFatal s)
-           | _ => None
-           end
-  | _ => None
-  end.
-
 Definition predict (c : case) : option (list N) :=
   let svc := c_svc c in
-  if ((svc =? 14)%N && negb (c_udp c) && match ldap_nest_case c with Some _ => true | None => false end)
-  then Some [K_DIED 4]
+  if ((svc =? 14)%N && negb (c_udp c)) then
+    match c_conns c with
+    | [k] => match ldap_envelope (stream_of k) with
+             | ERefused => Some [K_OK]                 (* also when the segment is repeated: the header decides *)
+             | EShort | EMalformed => if (k_rep k =? 0)%N then Some [K_OK] else None
+             | EOk _ => None                           (* the library and the handlers go on *)
+             end
+    | _ => None
+    end
   else if negb (no_rep c) then None
   else if (svc =? 2)%N then
     if c_udp c then Some [maxN (map class_of_res (flat_map (fun k => map cs_handle (k_segs k)) (c_conns c)))]
@@ -124,11 +122,6 @@ Definition predict (c : case) : option (list N) :=
          | Some rs => Some [maxN (map class_of_res rs)]
          | None => None
          end
-  else if (svc =? 14)%N then
-    match c_conns c with
-    | [k] => match ldap_first (stream_of k) with Some r => Some [class_of_res r] | None => None end
-    | _ => None
-    end
   else if c_udp c then
     match thin_udp svc with
     | Some r => match c_conns c with
